@@ -46,11 +46,31 @@ Section X.
         destruct (vv_val vv); [discriminate|apply as_pkg_preserves; assumption].
   Qed.
 
+  Lemma xstep_fmakunbound_q m s p n priv :
+    Inv P NM m s ->
+    match sq_fun s (s_cur s) p n priv with
+    | QUnbound => true
+    | _ => guard_step P NM (sstep s (OInPkg p)) (OFmakunbound n)
+    end = true ->
+    Inv P NM (fmakunbound_q m p n priv) (s_fmakunbound_q s p n priv).
+  Proof.
+    intros HI G.
+    assert (Hc : cur m = s_cur s) by (destruct HI as (HC & _); exact (c_cur _ _ _ HC)).
+    unfold fmakunbound_q, s_fmakunbound_q. rewrite Hc, (q_fun_eq P NM m s) by exact HI.
+    assert (K : Inv P NM (as_pkg m p (OFmakunbound n)) (sas_pkg s p (OFmakunbound n)) \/
+                sq_fun s (s_cur s) p n priv = QUnbound).
+    { destruct (sq_fun s (s_cur s) p n priv); [left|right; reflexivity|left|left];
+        (unfold as_pkg, sas_pkg; rewrite Hc; apply step_preserves; [|reflexivity];
+         apply step_preserves; [|exact G]; apply step_preserves; [exact HI|reflexivity]). }
+    destruct K as [K|K]; [|rewrite K; exact HI].
+    destruct (sq_fun s (s_cur s) p n priv); try exact K; exact HI.
+  Qed.
+
   (* ---- every guarded step, qualified writes included, preserves the relation ---- *)
   Theorem xstep_preserves m s o :
     Inv P NM m s -> xguard_step P NM s o = true -> Inv P NM (xstep m o) (sxstep s o).
   Proof.
-    intros HI G. destruct o as [o|p n v priv|p n v priv]; cbn [xstep sxstep xguard_step] in *.
+    intros HI G. destruct o as [o|p n v priv|p n v priv|p n priv]; cbn [xstep sxstep xguard_step] in *; [| | |apply xstep_fmakunbound_q; assumption].
     - apply step_preserves; assumption.
     - apply xstep_setq_q; assumption.
     - apply andb_true_iff in G. destruct G as [Hn G]. apply xstep_defvar_q; [assumption|assumption|].
@@ -134,4 +154,56 @@ Theorem xguard_nonvacuous :
   xguard_run PK NM (sinit 0%N) xnonvac = true /\
   (let s := fold_left sxstep xnonvac (sinit 0%N) in
    sq_var_q s 0%N 0%N false = QVal 3 /\ sq_var_q s 0%N 1%N true = QVal 5 /\ sq_var_q s 2%N 1%N true = QVal 8).
+Proof. vm_compute. repeat split. Qed.
+
+(* ---- the other resolvers of a function name (fboundp, symbol-function, function, fdefinition,
+   function-lambda-expression; repaired by C13-14): their masks are a function of the call answers, so the
+   refinement carries over to them on every guarded prefix ---- *)
+Theorem frefinement_prefix_PK ops :
+  let g := xguard_prefix PK NM (sinit 0%N) ops in
+  firstn g (map fobserve (xrun PK VN FN (init 0%N) ops)) = firstn g (map fobserve (sxrun PK VN FN (sinit 0%N) ops)).
+Proof. cbv zeta. rewrite !firstn_map. rewrite xrefinement_prefix_PK. reflexivity. Qed.
+(* what a mask list is: for every current package c and function name n, the mask of n, then of p:n and p::n
+   for every package p -- the resolution q_fun of the call (FindFunc) *)
+Lemma fobserve_observe s :
+  fobserve (observe PK VN FN s) =
+  flat_map (fun c => flat_map (fun n => res_mask (q_fun s c c n false) ::
+     flat_map (fun p => [res_mask (q_fun s c p n false); res_mask (q_fun s c p n true)]) PK) FN) PK.
+Proof. reflexivity. Qed.
+Lemma fobserve_sobserve s :
+  fobserve (sobserve PK VN FN s) =
+  flat_map (fun c => flat_map (fun n => res_mask (sq_fun s c c n false) ::
+     flat_map (fun p => [res_mask (sq_fun s c p n false); res_mask (sq_fun s c p n true)]) PK) FN) PK.
+Proof. reflexivity. Qed.
+Lemma Neqb_refl' : forall a : N, N.eqb a a = true. Proof. exact N.eqb_refl. Qed.
+Theorem fselfcheck_unreachable c : fcheck_case c <> 3%N.
+Proof.
+  unfold fcheck_case. cbv zeta.
+  destruct (negb (N.eqb (xcheck_case (fst c)) 0)); [apply xselfcheck_unreachable|].
+  rewrite frefinement_prefix_PK.
+  rewrite (list_eqb_refl _ (list_eqb_refl _ Neqb_refl')).
+  destruct (list_eqb _ _ (snd c)); [discriminate|]. destruct (list_eqb _ _ _); discriminate.
+Qed.
+(* the code before C13-14 refuted: after (defun vf () 1) in package 0 the specification resolves 0::vf
+   (mask 31: every resolver must find it) while fboundp / symbol-function of the unrepaired code answered
+   "undefined" on every qualified name (mask 28) *)
+Theorem original_fboundp_qualified_refuted :
+  let ops := [XB (ODefun 2%N 1)] in
+  xguard_prefix PK NM (sinit 0%N) ops = 1%nat /\
+  sq_fun (fold_left sxstep ops (sinit 0%N)) 1%N 0%N 2%N true = QVal 1 /\
+  res_mask (sq_fun (fold_left sxstep ops (sinit 0%N)) 1%N 0%N 2%N true) = 31%N /\
+  res_mask_orig true (q_fun (fold_left xstep ops (init 0%N)) 1%N 0%N 2%N true) = 28%N.
+Proof. vm_compute. repeat split. Qed.
+
+(* ---- qualified fmakunbound: inside the guard, and it acts: (fmakunbound '0::vf) from package 1 removes the
+   private function of package 0, (fmakunbound '0:vf) from package 1 leaves it (the name is not visible);
+   the unrepaired code (fmakunbound_q_orig: nothing happens) differs from S on the first history ---- *)
+Theorem fmakunbound_q_nonvacuous :
+  let two := [XB (ODefun 2%N 1); XB (OInPkg 1%N); XFmakunboundQ 0%N 2%N true] in
+  let one := [XB (ODefun 2%N 1); XB (OInPkg 1%N); XFmakunboundQ 0%N 2%N false] in
+  xguard_run PK NM (sinit 0%N) two = true /\ xguard_run PK NM (sinit 0%N) one = true /\
+  sq_fun (fold_left sxstep two (sinit 0%N)) 1%N 0%N 2%N true = QUnbound /\
+  q_fun (fold_left xstep two (init 0%N)) 1%N 0%N 2%N true = QUnbound /\
+  sq_fun (fold_left sxstep one (sinit 0%N)) 1%N 0%N 2%N true = QVal 1 /\
+  q_fun (fmakunbound_q_orig (fold_left xstep [XB (ODefun 2%N 1); XB (OInPkg 1%N)] (init 0%N)) 0%N 2%N true) 1%N 0%N 2%N true = QVal 1.
 Proof. vm_compute. repeat split. Qed.
